@@ -62,6 +62,8 @@ MUTANTS += [
     ('revert-c18-int-matcher-inf', ['C18'], MA, "            try:\n                int_value = int(arg.value)\n            except (OverflowError, ValueError): # inf and nan are not integers\n                return False\n            return arg.value == int_value and self.wrapped.matches(int_value)",
      "            return arg.value == int(arg.value) and self.wrapped.matches(int(arg.value))"),
     ('revert-c18-connection-silent', ['C18'], CT, "        if not self.connection_list.connections():\n            self.out.show('No connections yet')\n", ""),
+    ('revert-c13-closed-order', ['C13'], P, "            self.known_connections[conn_id] = None\n", "            self.known_connections[conn_id] = None\n            self.known_connections = dict.fromkeys(set(self.known_connections))\n"),
+    ('revert-c18-pipe-strict-stdin', ['C18', 'C13'], 'main.py', "sys.stdin.reconfigure(newline=None, errors='replace')", "sys.stdin.reconfigure(newline=None)"),
     ('revert-c18-undecodable-file', ['C18'], 'main.py', "open(file_path, errors='replace')", "open(file_path)"),
     ('revert-c18-undecodable-run', ['C18'], RU, "os.fdopen(readable, 'r', errors='replace')", "os.fdopen(readable, 'r')"),
     ('revert-c19-empty-f', ['C19'], AR, "    if args.f is not None:", "    if args.f:"),
